@@ -325,7 +325,7 @@ func runCheck(repo, prop, tier string, seed, workers int, only string) int {
 			for l, m := range res.Covers {
 				if !coversSeen[l] {
 					coversSeen[l] = true
-					c := replayCase{ID: fmt.Sprintf("cover-%s-%s", r.h.Name, sanitize(l)), Harness: r.h.Name, Args: res.Args, Model: m, Known: r.known, Kind: "cover"}
+					c := replayCase{ID: fmt.Sprintf("cover-%s-%s", r.h.Name, sanitize(l)), Harness: r.h.Name, Args: res.Args, Model: m, Known: r.known, Kind: "cover", Expect: l}
 					cases = append(cases, c)
 					if len(samples) < 12 {
 						samples = append(samples, map[string]interface{}{"kind": "cover-witness", "harness": r.h.Name, "args": res.Args, "label": l, "inputs": renderModel(m)})
@@ -685,7 +685,16 @@ func replayAll(prog *interp.Program, pool *interp.Pool, repo, vd, prop string, c
 					mine++
 				}
 			}
-			ok = mine == 0 && (outcome.Kind == "ok" || (mine == 0 && len(labels) > 0))
+			reached := false
+			for _, l := range outcome.Covers {
+				if l == c.Expect {
+					reached = true
+				}
+			}
+			// a witness fixes only the inputs read before the cover point: an
+			// assumption about a later input failing on its default value is
+			// not a disagreement, provided the cover point itself was reached
+			ok = mine == 0 && (outcome.Kind == "ok" || (mine == 0 && len(labels) > 0) || (reached && outcome.Kind == "infeasible"))
 			if !ok {
 				note = fmt.Sprintf("interpreter replay of cover witness: outcome=%s %s failed=%v", outcome.Kind, outcome.Msg, labels)
 			}
